@@ -153,6 +153,18 @@ theorem rangeD_one {text : Bytes} {p0 : Nat} {d : Data} (lo hi : UInt8) (_h : In
   | none => simp [readAt_one_none hb, inRange, bytesLe]
   | some b => simp [readAt_one_some hb, inRange, bytesLe_single]
 
+/-- both polarities: after fix f73d71e a negated range needs a byte to reject -/
+theorem rangeD_one_neg {text : Bytes} {p0 : Nat} {d : Data} (lo hi : UInt8) (neg : Bool) (_h : Inv text p0 d) :
+    rangeD text [lo] [hi] neg d =
+      match text[d.pos]? with
+      | some b => if ((decide (lo ≤ b) && decide (b ≤ hi)) != neg) then some (consumeD text d 1) else none
+      | none => none := by
+  unfold rangeD
+  simp only [List.length_singleton, Nat.add_sub_cancel, rangeLoopD, Nat.add_zero]
+  cases hb : text[d.pos]? with
+  | none => simp [readAt_one_none hb]
+  | some b => cases neg <;> simp [readAt_one_some hb, inRange, bytesLe_single]
+
 theorem spaceD_one {text : Bytes} {p0 : Nat} {d : Data} (neg : Bool) (htext : TextOK text) (_h : Inv text p0 d) :
     classD text .whitespace neg d =
       match text[d.pos]? with
@@ -296,13 +308,13 @@ theorem sim_class_neg {text : Bytes} {p0 : Nat} (lf : Nat) (items : List ClsItem
 
 /-! ## digits, anchors, back-references -/
 
-theorem digitD_one {text : Bytes} {p0 : Nat} {d : Data} (h : Inv text p0 d) :
-    classD text .digit false d =
+theorem digitD_one {text : Bytes} {p0 : Nat} {d : Data} (neg : Bool) (h : Inv text p0 d) :
+    classD text .digit neg d =
       match text[d.pos]? with
-      | some b => if (isDigit b != false) then some (consumeD text d 1) else none
+      | some b => if (isDigit b != neg) then some (consumeD text d 1) else none
       | none => none := by
   simp only [classD]
-  rw [rangeD_one 48 57 h]
+  rw [rangeD_one_neg 48 57 neg h]
   cases text[d.pos]? <;> simp [isDigit]
 
 /-- a zero-width test of the position -/
@@ -567,12 +579,11 @@ def _root_.Vore.Regex.Quant.wf : Quant → Bool
   | _ => true
 
 /-- what the semantic proof uses of its hypotheses: bracket classes are not empty, `{m,n}` has
-`m ≤ n`, no `\D` (see `C14_sem_statement`), and a body repeated an optional number of times cannot
+`m ≤ n`, and a body repeated an optional number of times cannot
 match the empty string -/
 def _root_.Vore.Regex.Re.semOK : Re → Bool
   | .seq a b | .alt a b => a.semOK && b.semOK
   | .cls _ items => !items.isEmpty
-  | .digit neg => !neg
   | .group _ r | .ncgroup r | .named _ r => r.semOK
   | .rep r q _ => r.semOK && q.wf && (q.max == some q.min || !r.nullable)
   | _ => true
@@ -688,13 +699,11 @@ theorem sim_m {text : Bytes} {p0 lf1 lf2 : Nat} (htext : TextOK text)
     exact sim_anchor (atomD text (.cls false .lineEnd)) (fun p => p == text.length || text[p]? == some 10)
       (fun d' _ => eolD htext d') d ks1 ks2 fk1 fk2 hinv hlin hks hfk
   | digit neg =>
-    intro h d ks1 ks2 fk1 fk2 hinv hlin hks hfk
-    simp only [Re.semOK, Bool.not_eq_true'] at h
-    subst h
+    intro _ d ks1 ks2 fk1 fk2 hinv hlin hks hfk
     simp only [Re.nullable, Bool.false_eq_true, if_false] at hks
     simp only [Re.toExpr, Spec.m, Regex.m]
-    exact sim_one (atomD text (.cls false .digit)) (fun b => isDigit b != false)
-      (fun d' h' => digitD_one h') d ks1 ks2 fk1 fk2 hinv hlin hks hfk
+    exact sim_one (atomD text (.cls neg .digit)) (fun b => isDigit b != neg)
+      (fun d' h' => digitD_one neg h') d ks1 ks2 fk1 fk2 hinv hlin hks hfk
   | space neg =>
     intro _ d ks1 ks2 fk1 fk2 hinv hlin hks hfk
     simp only [Re.nullable, Bool.false_eq_true, if_false] at hks
